@@ -28,6 +28,8 @@ def make_jobs(ctx):
     jobs.append(wasi_job(ctx, "W.fd_readdir", src, "h_readdir", ["wasi.c:fd_readdir", "wasi.c:wasiFDReaddir"], defines=["GMEM=56"], unwind=58,
                          unwindset="wasiFDReaddir.0:5,h_readdir.3:5", timeout=(1200 if ctx.tier == "thorough" else 400),
                          bounded="ghost directory of <= 3 entries (names 1..3 bytes, any inode, type in {reg,dir,lnk,chr,blk}), buffer 0..40 bytes, every cookie in 0..count"))
+    # the error code a failing path operation reports is the WASI name of the host's errno (table contract of wasiErrno; shared with C12)
+    jobs.append(wasi_job(ctx, "W.errno", "c12_io.c", "h_errno", ["wasi.c:wasiErrno"]))
     return jobs
 
 
